@@ -12,7 +12,8 @@ A history is a list of timed top-level calls, all scheduled up front (`schedule_
 scheduler the subject uses; `start()` then runs everything.  No user callback ever runs inside a subject
 method here (all deliveries are `run` actions of the scheduler), except through `subscribe`'s fail
 path on a disposed subject; callbacks re-enter the subject through their reaction scripts
-(`Subj.Action`), executed from an explicit agenda as in `RxModel/Subj.lean`.
+(`RAction`: the `Subj.Action`s, and re-entrant emission into the same subject), executed from an explicit
+agenda as in `RxModel/Subj.lean`.
 
 Times are `Nat` ticks (the harness uses integer virtual times; `TestScheduler` maps tick t to t seconds).
 -/
@@ -60,7 +61,7 @@ deriving Repr
 property oracle reads). -/
 inductive EvR (α : Type) where
   | emit (i now : Nat) (n : Notif α)  -- observer i's callback emits n into the subject (re-entrant)
-  | call (k now nobs : Nat)   -- history call k starts, `scheduler.now` = now, `len(subject.observers)` = nobs
+  | call (k now nobs : Nat) (c : Call α)  -- history call k (= c) starts, `scheduler.now` = now, `len(subject.observers)` = nobs
   | sub (j now : Nat)         -- subscribe(j) is attempted (top level or reaction)
   | unsub (j : Nat)           -- the handle of j's subscription is disposed
   | dispose                   -- subject.dispose()
@@ -323,7 +324,7 @@ def doTask (cfg : Cfg α) (st : St α) : Task α → St α
 
 /-- One history call, made by the harness inside its scheduled action. -/
 def doCall (cfg : Cfg α) (st : St α) (k : Nat) (c : Call α) : St α :=
-  let st := { st with curCall := k, evs := st.evs ++ [EvR.call k st.clock st.observers.length] }
+  let st := { st with curCall := k, evs := st.evs ++ [EvR.call k st.clock st.observers.length c] }
   match c with
   | .next v => emit cfg st none (.next v)
   | .error e => emit cfg st none (.error e)
